@@ -763,3 +763,12 @@ def c10_j(ctx):
 
 def _phi_alts_(t):
     return list(t[1]) if t[0] == 'phi' else [t]
+
+
+@obligation('C10-k', 'T12', 'a returned result buffer does not inherit the dtype of the caller\'s '
+            'array (package sweep; shared with C08-l)', floor=1,
+            necessary='the posterior gradient written into an integer buffer is truncated towards '
+                      'zero: it is not the derivative for an integer-typed point')
+def c10_k(ctx):
+    from .base import inherited_dtype_obligation
+    inherited_dtype_obligation(ctx)
